@@ -12,3 +12,35 @@ Print Assumptions C10_expand_no_brace.
 Theorem C10_token_reset_needs_tid : forall tids, token_reset_applies [] tids = false.
 Proof. exact token_reset_needs_tid. Qed.
 Print Assumptions C10_token_reset_needs_tid.
+
+(* Integrated model Comp/Core.v (connections x one flat resource, both task queues, token events; run in lock-step with the real
+   gateway on every check), every reachable state, every step: whatever is queued, outstanding or in progress for other
+   connections, a task of connection c sends frames to c only and makes requests on c's behalf only; every access request it
+   makes is for a Subscription object of c and carries c's own token as it is when the task ends; a cache task addresses nobody. *)
+From RG Require Comp.Conv Comp.Core Proofs.CoreProofsI.
+Theorem C10_core_isolation :
+  forall (val upd : Type) (app : upd -> val -> val) (norm : upd -> val -> option upd) (d : val),
+  (forall u v, norm u v = None -> app u v = v) ->
+  (forall u v u', norm u v = Some u' -> app u' v = app u v) ->
+  forall t ops o,
+  let s := fst (Core.exec val upd app norm d t ops) in
+  let '(s', outs) := Core.step val upd app norm s o in
+  (forall c, o = Core.GrantConn upd c ->
+     forall x, In x outs -> (CoreProofsI.addressee val upd x = None \/ CoreProofsI.addressee val upd x = Some c) /\
+       match x with
+       | Core.OAccessReq _ _ c' i tk => c' = c /\ Core.owner (Core.insts val upd s' i) = c /\ tk = Core.tok (Core.conns val upd s' c)
+       | _ => True
+       end) /\
+  ((forall c, o <> Core.GrantConn upd c) -> forall x, In x outs -> CoreProofsI.addressee val upd x = None).
+Proof. exact CoreProofsI.core_isolation. Qed.
+Print Assumptions C10_core_isolation.
+
+(* A connection's token is changed by its own token events only. *)
+Theorem C10_core_token_own :
+  forall (val upd : Type) (app : upd -> val -> val) (norm : upd -> val -> option upd) (d : val) t ops o c,
+  let s := fst (Core.exec val upd app norm d t ops) in
+  let s' := fst (Core.step val upd app norm s o) in
+  Core.tok (Core.conns val upd s' c) <> Core.tok (Core.conns val upd s c) ->
+  o = Core.GrantConn upd c /\ exists tk q, Core.cqueue (Core.conns val upd s c) = Core.QToken tk :: q.
+Proof. exact CoreProofsI.core_token_own. Qed.
+Print Assumptions C10_core_token_own.
